@@ -86,6 +86,7 @@ type DB struct {
 	Axioms  []Clause
 	GGroups map[string][]string
 	GNat    map[string]bool
+	FnConsts map[string]map[string]int // fnconst <name> <pkg.func> <value>: per-function constants (from an independent oracle)
 	Tracked []string // type names whose objects are tracked by dynamic type (rtype)
 	Files   []string
 	patKeys []string
@@ -104,7 +105,7 @@ type SpecFn struct {
 
 func newDB() *DB {
 	return &DB{Funcs: map[string]*FuncContract{}, Ifaces: map[string]*FuncContract{}, FnTypes: map[string]*FuncContract{},
-		Preds: map[string]*Pred{}, GFields: map[string]*GhostField{}, GGlobal: map[string]string{}, SpecFns: map[string]*SpecFn{}, GGroups: map[string][]string{}, GNat: map[string]bool{}}
+		Preds: map[string]*Pred{}, GFields: map[string]*GhostField{}, GGlobal: map[string]string{}, SpecFns: map[string]*SpecFn{}, GGroups: map[string][]string{}, GNat: map[string]bool{}, FnConsts: map[string]map[string]int{}}
 }
 
 var tagRe = regexp.MustCompile(`^([a-z-]+)(\[([A-Za-z0-9, ]*)\])?\s*(.*)$`)
@@ -151,7 +152,7 @@ func (db *DB) loadContractFile(path, pkgPath string) error {
 	keywords := map[string]bool{"func": true, "loop": true, "mode": true, "requires": true, "ensures": true, "invariant": true,
 		"modifies": true, "safety": true, "trusted": true, "ghost-entry": true, "pred": true, "ghost": true, "template": true,
 		"end": true, "iface": true, "functype": true, "decreases": true, "inline": true, "specfn": true, "axiom": true,
-		"split": true, "verify": true, "direct-read": true, "ghost-exit": true, "recfn": true, "free-ensures": true, "free-requires": true, "lemma": true, "pure": true, "free-invariant": true, "tracked": true, "allocates": true}
+		"split": true, "verify": true, "direct-read": true, "ghost-exit": true, "recfn": true, "free-ensures": true, "free-requires": true, "lemma": true, "pure": true, "free-invariant": true, "tracked": true, "allocates": true, "fnconst": true}
 	for _, l := range strings.Split(string(raw), "\n") {
 		t := strings.TrimSpace(l)
 		if isGo {
@@ -467,6 +468,19 @@ func (db *DB) loadContractFile(path, pkgPath string) error {
 				}
 			}
 			db.SpecFns[sf.Name] = sf
+		case "fnconst":
+			f := strings.Fields(rest)
+			if len(f) != 3 {
+				return fmt.Errorf("%s: bad fnconst %q", path, rest)
+			}
+			var v int
+			if _, err := fmt.Sscanf(f[2], "%d", &v); err != nil {
+				return fmt.Errorf("%s: bad fnconst value %q", path, rest)
+			}
+			if db.FnConsts[f[0]] == nil {
+				db.FnConsts[f[0]] = map[string]int{}
+			}
+			db.FnConsts[f[0]][f[1]] = v
 		case "axiom":
 			e, err := parse(rest)
 			if err != nil {
